@@ -44,6 +44,7 @@ var (
 	tier = flag.String("tier", "quick", "quick|thorough")
 	dir  = flag.String("dir", ".", "output directory")
 	corp = flag.String("corpus", "", "corpus directory (hand-picked cases, run first)")
+	only = flag.String("only", "", "C15 only: \"sat\" restricts the run to the saturating functions (fixed-point part of C13)")
 )
 
 func main() {
